@@ -16,6 +16,7 @@ extern "C" RPBlockAccess hm_block_access_init(void);
 
 namespace {
 using namespace rpref;
+static bool g_free_via_block = false;   // frames are released with the allocator header's block_free() instead of regp_free() (the same release, spelled by the application)
 static bool g_macro_init = false;   // instances, allocators and endpoints come from the headers' static initialiser macros
 
 // ------------------------------------------------------------------ wires
@@ -228,7 +229,7 @@ static Served serve(Node &N, size_t payload_avail) {
         }
         S.proc_returned = WITH_BUDGET(c, budget, S.rc_proc = regp_process(&N.p, &mf));
         c.ev(EV_API, 2, (uint64_t)(int64_t)S.rc_proc, 0);
-        if (S.proc_returned) regp_free(&N.p, mf.frame);
+        if (S.proc_returned) { if (g_free_via_block && mf.frame) { block_free(N.p.alloc, mf.frame); COUNT("probe.frame_released_through_block_free"); } else regp_free(&N.p, mf.frame); }
     } else if (S.recv_returned) {
         // reception failed. The documented loop goes on after its error handling, and regp_process() promises to
         // ignore such a result; the receiver released its block itself, so this must neither execute nor free anything.
@@ -318,7 +319,7 @@ struct RegpHarness : Harness {
         else if (p == "C07") for (const char *s : {"frame_of_64k_octets_or_more", "damage_beyond_64k_words", "idle_turn_after_a_frame", "reply_could_not_be_sent", "flip1", "flip2", "burst", "truncate", "extend", "header_word_flip", "class_header_encoding", "class_header_crc", "class_payload_size", "class_payload_crc", "raw_accept", "raw_tcp", "option_plcrc_without_hdcrc", "odd_payload_ws16", "payload_fault_answered_with_error_response", "classified_from_fallback_buffer"}) v.push_back(s);
         else if (p == "C08") { for (const char *s : {"instance_without_memory_attached", "payload_of_64k_octets_or_more", "emitter_sink_failed", "channel_attached_again_mid_session", "req_read8", "req_read16", "req_write8", "req_write16", "resp_ack_payload", "resp_ack_empty", "resp_meta", "payload_with_slip_control_octets", "varint_prefix_2_octets", "sequence_wrap", "roundtrip_accepted"}) v.push_back(s);
             for (int k = 1; k < 12; ++k) v.push_back("resp_code_" + std::to_string(k)); }
-        else for (const char *s : {"frame_of_64k_octets_or_more", "reply_could_not_be_sent", "malloc_failed_underneath_ufw_malloc", "alloc_failure_with_parsable_header", "alloc_failure_without_parsable_header", "empty_frame", "short_frame", "frame_len_room_minus_1", "frame_len_room", "frame_len_room_plus_1", "rx_overflow", "read_at_limit_minus_1", "read_at_limit", "read_at_limit_plus_1", "tx_overflow", "channel_error_mid_frame", "odd_payload_ws16", "slab_allocator", "block_size_minimum", "served_after_fault", "illegal_slip_sequence_on_the_wire"}) v.push_back(s);
+        else for (const char *s : {"frame_released_through_block_free", "frame_of_64k_octets_or_more", "reply_could_not_be_sent", "malloc_failed_underneath_ufw_malloc", "alloc_failure_with_parsable_header", "alloc_failure_without_parsable_header", "empty_frame", "short_frame", "frame_len_room_minus_1", "frame_len_room", "frame_len_room_plus_1", "rx_overflow", "read_at_limit_minus_1", "read_at_limit", "read_at_limit_plus_1", "tx_overflow", "channel_error_mid_frame", "odd_payload_ws16", "slab_allocator", "block_size_minimum", "served_after_fault", "illegal_slip_sequence_on_the_wire"}) v.push_back(s);
         return v;
     }
     Json describe(const std::string &p) const override {
@@ -402,6 +403,7 @@ struct RegpHarness : Harness {
         if (r.chance(1, 3)) { static const int F[] = {0x00, 0xff, 0xff, 0xa5, 0x01}; p["fill"] = F[r.below(5)]; }
         if (r.chance(1, 4)) p["scrub"] = r.chance(1, 2) ? 0xff : 0x00;
         if (r.chance(1, 4)) p["stock_heap"] = 1;
+        if (prop == "C09" && r.chance(1, 5)) p["bfree"] = 1;
         if (prop == "C08") { static const int DIRT[] = {0, 0, 0xff, 0xa5, 0x01, 0x80}; p["dirt"] = DIRT[r.below(6)]; }
         if ((prop == "C08" && mt == 16 && r.chance(1, 4)) || (prop == "C06" && mt == 16 && r.chance(1, 10))) p["nomem"] = 1;   // the emitting / serving instance never attaches memory
         if (r.chance(1, 4)) p["lend"] = (long long)(r.chance(1, 3) ? r.range(1, 6) : (r.chance(1, 2) ? r.range(7, 40) : r.range(41, 400)));   // the channel sources implement the getbuffer extension
@@ -551,7 +553,7 @@ struct RegpHarness : Harness {
     // ------------------------------------------------------------ execution
     struct Cfg { bool serial; int mt; size_t block; bool slab, so, ko; uint16_t seq0; bool recycle; unsigned confhist; };
     static Cfg cfg_of(const Json &plan) {
-        g_macro_init = plan.geti("macro_init") != 0; g_bind_with_macros = false;
+        g_macro_init = plan.geti("macro_init") != 0; g_bind_with_macros = false; g_free_via_block = plan.geti("bfree") != 0;
         g_stock_heap = plan.geti("stock_heap") != 0 && plan.geti("recycle") == 0; g_fail_next_malloc = false;
         g_snk_calls = 0; g_snk_intruder = nullptr; g_snk_intrude_at = -1;
         if (plan.has("intrude")) { const Json &ij = plan.get("intrude"); g_snk_intrude_at = ij.ati(0, 0); if (g_snk_intrude_at < 0 || g_snk_intrude_at > 100000) g_snk_intrude_at = 0; g_snk_intrude_arg = ij.ati(1, 0) & 0xfffff; g_snk_intruder = second_instance_emits; }
